@@ -181,9 +181,6 @@ Proof.
         -- rewrite EK, Ed, <- !app_assoc. split; reflexivity.
 Qed.
 
-Lemma list_eq_nil_or_cons {A} (l : list A) : l = [] \/ exists x r, l = x :: r.
-Proof. destruct l as [|x r]; [left; reflexivity | right; exists x, r; reflexivity]. Qed.
-
 Section Off.
   Variable U : list block.
   Variables first kept : N.
